@@ -139,9 +139,11 @@ def main():
         al, la = rng.choice([Fraction(1), Fraction(1, 2), Fraction(1, 4), Fraction(0)]), rng.choice([Fraction(1), Fraction(1, 2), Fraction(0)])
         td = make_falcon(f, td=(al, la))
         try:
-            for ep in range(rng.choice([1, 2, 3])):
+            for ep in range(rng.choice([1, 2, 3, 4])):
                 idx = [rng.randrange(len(S)) for _ in range(rng.randrange(2, 7))]
-                Se, Ae, Re = arr([S[i] for i in idx]), arr([A[i] for i in idx]), arr([R[i] for i in idx])
+                # replayed state/action pairs may come with other rewards than before (existing categories are re-learned)
+                ridx = [rng.randrange(len(S)) if rng.random() < 0.4 else i for i in idx]
+                Se, Ae, Re = arr([S[i] for i in idx]), arr([A[i] for i in idx]), arr([R[i] for i in ridx])
                 trained = hasattr(td.fusion_art.modules[0], "W")
                 Qv = td.get_rewards(Se, Ae) if trained else np.zeros((len(idx), 1))
                 sf, af, rf = td.calculate_SARSA(Se, Ae, Re)
@@ -161,6 +163,10 @@ def main():
                 sstrs.append(f"(mkScall {q(al)} {q(la)} {qlist(Ql)} {qmat([[float(x) for x in r] for r in Re])} {qmat(rfl)})")
                 ssumm.append({"td_alpha": str(al), "td_lambda": str(la), "Q": Ql, "rewards": Re.tolist(), "targets": rfl})
                 td.partial_fit(Se, Ae, Re)
+                # the reward map read after every episode is the one just learned
+                fails.extend(oracle(td, [S[i] for i in idx], [A[i] for i in idx], None,
+                                    {"estimator": "TD_FALCON", "td_alpha": str(al), "td_lambda": str(la), "episode": ep,
+                                     "falcon": {k: str(vv) for k, vv in f.items()}, "episode_rows": idx, "episode_reward_rows": ridx}))
         except Exception as e:
             fails.append({"signature": "TD_FALCON/raises", "text": f"{type(e).__name__}: {str(e)[:80]}", "replay": {"alpha": str(al), "lambda": str(la)}})
     codes, bad = flow.coq_corr("C16", "RunFusion", fstrs, shard=60, check_fn="fcheck", extra_imports="From ARTcorr Require Import RunBase.\n")
